@@ -11,8 +11,21 @@
   The model has no recursion depth limit at all (the fuel is `#distinct keys + 2` and part 1 shows
   it is never exhausted), so "beyond 20 levels" needs no separate statement: nothing in the model
   counts levels, the only test made on the way down is `chain.contains key`.
+
+  (Theorem audit.)  The last section, "Strengthened statements", gives that remark a content and
+  states the property globally, about `evaluate`: the reference graphs are defined
+  (`Proofs/AuditCycle.lean`), cycle detection is sound for the whole evaluation
+  (`circular_prereq_report_sound`, `circular_segment_report_sound`), an acyclic graph yields no
+  cycle report and no re-entry (`acyclic_no_prereq_cycle_report`, `acyclic_no_segment_cycle_report`,
+  `acyclic_never_reenters`), a reported cycle makes the whole result MALFORMED_FLAG
+  (`cycle_report_implies_malformed`), a re-entry met on the walk is reported and is the last thing
+  that happens (`reentry_reported`), and the chain — of whatever length — is irrelevant below a flag
+  none of whose descendants has a key on it (`depth_independent`, `acyclic_call_standalone`).
+  What the model still cannot express is the Go representation of the chain (a slice passed by
+  value, capacity 20, shared backing array between siblings): chains are immutable lists here.
 -/
 import LDEval.Proofs.Prereq
+import LDEval.Proofs.AuditCycle
 
 namespace LD.C10
 
@@ -481,6 +494,565 @@ example :
 
 end Ex
 
+/-! ## Strengthened statements (theorem audit) -/
+
+open Relation
+
+/-! ### Audit #34: global soundness of cycle detection, and "acyclic ⇒ no cycle error"
+
+The reference graphs are those of `Proofs/AuditCycle.lean`: `PrereqEdge s f g` — flag `f` lists a
+prerequisite whose LOOKUP key `Store.findFlag` resolves to the flag `g`; `SegEdge s a b` /
+`FlagSegEdge s f b` — a `segmentMatch` clause of a rule of segment `a` / flag `f` names a key that
+`Store.findSegment` resolves to `b`.  The evaluator's cycle test compares OWN keys, so a cycle
+"through key `k`" is a path from the evaluated flag that reaches a flag (segment) with own key `k`
+and later another one (the same one, if the store files items under their own keys) with own key
+`k` again: `PrereqCycleAt`, `SegCycleAt`.  The invariant behind everything is that the chain is
+always a path of the graph from the root (`OnPath`, `SegOnPath`, `walk_invariant`). -/
+
+theorem evaluate_channels {env : Env} {f : Flag} (hctx : env.ctx ≠ .invalid) {out : FlagOut}
+    {st : St}
+    (he : evalFlag (segFuel env.store) (flagFuel env.store) env f [] {} = (out, st)) :
+    (evaluate env f).events = st.events ∧ (evaluate env f).logs = st.logs ∧
+    (evaluate env f).flagLookups = st.flagLookups ∧ (evaluate env f).segLookups = st.segLookups ∧
+    (evaluate env f).bsQueries = st.bsQueries ∧ (evaluate env f).memChecks = st.memChecks := by
+  unfold evaluate
+  split
+  · rename_i hc; exact absurd hc hctx
+  · rw [he]; exact ⟨rfl, rfl, rfl, rfl, rfl, rfl⟩
+
+/-- Every line `Evaluate` logs is accounted for (`LogOK`): it is written under the own key of a flag
+reachable from the evaluated flag through prerequisite references, and its error is — under the
+malformed-segment wrappers — a plain data error, or the prerequisite-cycle error with a genuine
+re-entry behind it, or the segment-cycle error with a genuine segment cycle behind it. -/
+theorem evaluate_logs_ok (env : Env) (top : Flag) :
+    ∀ l ∈ (evaluate env top).logs, LogOK env.store top l := by
+  by_cases hctx : env.ctx = .invalid
+  · intro l hl
+    have : (evaluate env top).logs = [] := by unfold evaluate; rw [hctx]
+    rw [this] at hl; cases hl
+  · generalize he : evalFlag (segFuel env.store) (flagFuel env.store) env top [] {} = r
+    obtain ⟨out, st⟩ := r
+    have h := (evalFlag_logsPost _ env top _ top [] {} out st .refl (OnPath.nil _ _ _) he).1
+    intro l hl
+    rw [(evaluate_channels hctx he).2.1] at hl
+    rcases h l hl with h | h
+    · cases h
+    · exact h
+
+/-- SOUNDNESS OF PREREQUISITE-CYCLE DETECTION, for the whole evaluation (any depth, any number of
+siblings and diamonds).  If `Evaluate` reports the circular-prerequisite error for key `k` — the
+line is never wrapped — under flag key `fk`, then the graph really contains the re-entry: a flag
+`g` with own key `k` is reachable from the evaluated flag; the flag `f` with own key `fk` is `g` or
+lies below `g`; and `f` lists a prerequisite that the store resolves to a flag `h` with own key
+`k`.  So a flag that is merely shared between several acyclic paths is never reported. -/
+theorem circular_prereq_report_sound (env : Env) (top : Flag) :
+    ∀ l ∈ (evaluate env top).logs, ∀ k, l.err.core = .circularPrereq k →
+      l.err = .circularPrereq k ∧ PrereqReentry env.store top l.flagKey k := by
+  intro l hl k hk
+  obtain ⟨f, hf, hkey, hcase⟩ := evaluate_logs_ok env top l hl
+  rcases hcase with h | ⟨k', he, g, h', hg, hgf, hfh, h1, h2⟩ | ⟨k', a, he, _⟩
+  · rw [hk] at h; exact h.elim
+  · rw [he] at hk
+    have : k' = k := by simpa [EvalErr.core] using hk
+    subst this
+    exact ⟨he, g, f, h', hg, hgf, hfh, h1, h2, hkey.symm⟩
+  · rw [hk] at he; cases he
+
+/-- … in particular the key graph has a cycle through `k`. -/
+theorem circular_prereq_report_cycle (env : Env) (top : Flag) :
+    ∀ l ∈ (evaluate env top).logs, ∀ k, l.err.core = .circularPrereq k →
+      PrereqCycleAt env.store top k ∧ TransGen (PrereqKeyEdge env.store top) k k := by
+  intro l hl k hk
+  have h := (circular_prereq_report_sound env top l hl k hk).2.cycleAt
+  exact ⟨h, h.keyCycle⟩
+
+/-- ACYCLIC ⇒ NO CYCLE ERROR (prerequisites).  If no prerequisite path from the evaluated flag
+comes back to a key it has passed, `Evaluate` never reports a circular prerequisite, however many
+paths lead to the same flag and however long they are. -/
+theorem acyclic_no_prereq_cycle_report (env : Env) (top : Flag)
+    (hac : PrereqAcyclicFrom env.store top) :
+    ∀ l ∈ (evaluate env top).logs, ∀ k, l.err.core ≠ .circularPrereq k := by
+  intro l hl k hk
+  exact hac k (circular_prereq_report_sound env top l hl k hk).2.cycleAt
+
+/-- The same with acyclicity of the key graph (the form proposed in the audit): nodes are own
+keys, `a → b` iff a reachable flag with own key `a` lists a prerequisite that the store resolves to
+a flag with own key `b`. -/
+theorem acyclic_keygraph_no_prereq_cycle_report (env : Env) (top : Flag)
+    (hac : ∀ k, ¬ TransGen (PrereqKeyEdge env.store top) k k) :
+    ∀ l ∈ (evaluate env top).logs, ∀ k, l.err.core ≠ .circularPrereq k :=
+  acyclic_no_prereq_cycle_report env top fun k h => hac k h.keyCycle
+
+/-- … and with the key graph over the evaluated flag and ALL stored flags (no reachability side
+condition; the audit's `PEdge'`). -/
+theorem acyclic_keygraphAll_no_prereq_cycle_report (env : Env) (top : Flag)
+    (hac : ∀ k, ¬ TransGen (PrereqKeyEdgeAll env.store top) k k) :
+    ∀ l ∈ (evaluate env top).logs, ∀ k, l.err.core ≠ .circularPrereq k :=
+  acyclic_keygraph_no_prereq_cycle_report env top fun k h =>
+    hac k (transGen_imp (fun _ _ he => PrereqKeyEdge.toAll he) h)
+
+/-- SOUNDNESS OF SEGMENT-CYCLE DETECTION, for the whole evaluation.  If a logged error is, under its
+malformed-segment wrappers, the circular-segment error for key `k`, then the line is written under
+the key of a flag `f` reachable from the evaluated flag, a rule of `f` references a segment `a`, and
+from `a` a path of segment references reaches a segment with own key `k` and later a segment with
+own key `k` again. -/
+theorem circular_segment_report_sound (env : Env) (top : Flag) :
+    ∀ l ∈ (evaluate env top).logs, ∀ k, l.err.core = .circularSegment k →
+      ∃ f a, PrereqReach env.store top f ∧ l.flagKey = f.key ∧ FlagSegEdge env.store f a ∧
+        SegCycleFrom env.store a k := by
+  intro l hl k hk
+  obtain ⟨f, hf, hkey, hcase⟩ := evaluate_logs_ok env top l hl
+  rcases hcase with h | ⟨k', he, _⟩ | ⟨k', a, he, hedge, hcyc⟩
+  · rw [hk] at h; exact h.elim
+  · rw [he] at hk; cases hk
+  · rw [hk] at he
+    have : k = k' := by simpa using he
+    subst this
+    exact ⟨f, a, hf, hkey, hedge, hcyc⟩
+
+/-- ACYCLIC ⇒ NO CYCLE ERROR (segments): a segment reachable by several acyclic reference paths is
+never reported as a cycle. -/
+theorem acyclic_no_segment_cycle_report (env : Env) (top : Flag)
+    (hac : SegAcyclicFrom env.store top) :
+    ∀ l ∈ (evaluate env top).logs, ∀ k, l.err.core ≠ .circularSegment k := by
+  intro l hl k hk
+  obtain ⟨f, a, hf, _, hedge, hcyc⟩ := circular_segment_report_sound env top l hl k hk
+  exact hac k ⟨f, a, hf, hedge, hcyc⟩
+
+/-! ### Audit #35: a reported cycle makes the WHOLE evaluation MALFORMED_FLAG -/
+
+/-- If `Evaluate` logged a prerequisite-cycle or segment-cycle error anywhere (at any nesting
+depth), the result of the whole call is the MALFORMED_FLAG error with no variation and a null value
+(the induction over the nesting depth that `abort_propagates` left to the reader). -/
+theorem cycle_report_implies_malformed (env : Env) (top : Flag)
+    (h : ∃ l ∈ (evaluate env top).logs, ∃ k,
+      l.err.core = .circularPrereq k ∨ l.err.core = .circularSegment k) :
+    (evaluate env top).result.detail.reason.errorKind = some .malformedFlag ∧
+    (evaluate env top).result.detail.reason.kind = .error ∧
+    (evaluate env top).result.detail.index = none ∧
+    (evaluate env top).result.detail.value = .null := by
+  obtain ⟨l, hl, k, hk⟩ := h
+  by_cases hctx : env.ctx = .invalid
+  · have : (evaluate env top).logs = [] := by unfold evaluate; rw [hctx]
+    rw [this] at hl; cases hl
+  · generalize he : evalFlag (segFuel env.store) (flagFuel env.store) env top [] {} = r
+    obtain ⟨out, st⟩ := r
+    have hpost := (evalFlag_logsPost _ env top _ top [] {} out st .refl (OnPath.nil _ _ _) he).2
+    rw [(evaluate_channels hctx he).2.1] at hl
+    cases out with
+    | oof =>
+      rcases evaluate_valid top hctx he with ⟨d, ok, hd, _⟩ | ⟨_, ho⟩
+      · cases hd
+      · rw [terminates] at ho; cases ho
+    | done d ok =>
+      cases ok with
+      | true =>
+        rcases hpost d rfl l hl with h | h
+        · cases h
+        · exfalso
+          have h' : l.err.core.IsLeaf := h
+          rcases hk with hk | hk <;> rw [hk] at h' <;> exact h'
+      | false =>
+        obtain ⟨h1, h2, h3, h4, _⟩ := abort_propagates_top hctx he
+        exact ⟨h1, h2, h3, h4⟩
+
+/-! ### The converse direction: an actual re-entry is reported, and nothing is evaluated twice
+
+`Calls sf env c c'` (Proofs/AuditCycle.lean) is the call tree of the recursion: the call `c` (fuel,
+flag, chain, entry state) evaluates the prerequisites listed before `p` — all met —, looks `p.key` up,
+finds `pf`, whose key is not on `c`'s path, and makes the nested call `c'` on `pf`.  `Reenters` is
+the same with `pf`'s key ON the path.  The walk from the root call is `ReflTransGen (Calls …)`. -/
+
+/-- The call `Evaluate` starts with. -/
+def rootCall (env : Env) (top : Flag) : Call := ⟨flagFuel env.store, top, [], {}⟩
+
+/-- COMPLETENESS OF CYCLE DETECTION ALONG THE WALK.  If the walk from the root call reaches, at any
+depth, a call that re-enters a key of its current path, then `Evaluate` returns MALFORMED_FLAG; the
+lookup that found the flag already on the path is the LAST thing that happens (the re-entered flag
+is not evaluated again, no later prerequisite of any frame is looked up, no event is appended for
+any unfinished frame, no segment is looked at, no big-segment query is made), and with a logger the
+last line names the dependent flag and the re-entered key. -/
+theorem reentry_reported {env : Env} {top : Flag} (hctx : env.ctx ≠ .invalid) {c : Call}
+    {p : Prereq} {pf : Flag} {st1 : St}
+    (hwalk : ReflTransGen (Calls (segFuel env.store) env) (rootCall env top) c)
+    (hre : Reenters (segFuel env.store) env c p pf st1) :
+    ((evaluate env top).result.detail.reason.errorKind = some .malformedFlag ∧
+     (evaluate env top).result.detail.reason.kind = .error ∧
+     (evaluate env top).result.detail.index = none ∧
+     (evaluate env top).result.detail.value = .null) ∧
+    (evaluate env top).flagLookups = st1.flagLookups ++ [p.key] ∧
+    (evaluate env top).events = st1.events ∧
+    (evaluate env top).logs =
+      (if env.opts.logger then st1.logs ++ [⟨c.flag.key, .circularPrereq pf.key⟩] else st1.logs) ∧
+    (evaluate env top).segLookups = st1.segLookups ∧
+    (evaluate env top).bsQueries = st1.bsQueries ∧
+    (evaluate env top).memChecks = st1.memChecks := by
+  obtain ⟨d0, st3, h3, hs⟩ := walk_abort_up hwalk hre.run_eq
+  have h3' : evalFlag (segFuel env.store) (flagFuel env.store) env top [] {} =
+      (.done d0 false, st3) := h3
+  obtain ⟨r1, r2, r3, r4, _⟩ := abort_propagates_top hctx h3'
+  obtain ⟨e1, e2, e3, e4, e5, e6⟩ := evaluate_channels hctx h3'
+  obtain ⟨s1, s2, s3, s4, s5, s6⟩ := hs
+  refine ⟨⟨r1, r2, r3, r4⟩, ?_, ?_, ?_, ?_, ?_, ?_⟩
+  · rw [e3, s3, logErr_flagLookups]; rfl
+  · rw [e1, s1, logErr_events]; rfl
+  · rw [e2, s2]; unfold logErr; split <;> rfl
+  · rw [e4, s4]; unfold logErr; split <;> rfl
+  · rw [e5, s5]; unfold logErr; split <;> rfl
+  · rw [e6, s6]; unfold logErr; split <;> rfl
+
+/-- A re-entry met on the walk is a genuine re-entry of the graph (logger or no logger). -/
+theorem reentry_is_cycle {env : Env} {top : Flag} {c : Call} {p : Prereq} {pf : Flag} {st1 : St}
+    (hwalk : ReflTransGen (Calls (segFuel env.store) env) (rootCall env top) c)
+    (hre : Reenters (segFuel env.store) env c p pf st1) :
+    PrereqReentry env.store top c.flag.key pf.key := by
+  obtain ⟨h1, h2, _, _⟩ := walk_invariant hwalk
+  cases hre with
+  | @mk n f chain st pre p post pf st1 hon hps hpre hfind hc =>
+    have hmem : pf.key ∈ chain ++ [f.key] := by simpa using hc
+    obtain ⟨g, hg, hgf, hk⟩ := (h2.self h1) _ hmem
+    exact ⟨g, f, pf, hg, hgf, ⟨p, by rw [hps]; simp, hfind⟩, hk, rfl, rfl⟩
+
+/-- ACYCLIC ⇒ the walk never takes the cycle branch — with or without a logger. -/
+theorem acyclic_never_reenters {env : Env} {top : Flag} (hac : PrereqAcyclicFrom env.store top)
+    {c : Call} (hwalk : ReflTransGen (Calls (segFuel env.store) env) (rootCall env top) c)
+    (p : Prereq) (pf : Flag) (st1 : St) : ¬ Reenters (segFuel env.store) env c p pf st1 :=
+  fun hre => hac _ (reentry_is_cycle hwalk hre).cycleAt
+
+/-! ### Audit #34 (diamonds) and #36 (depth): "evaluated normally on each path", at any depth -/
+
+/-- DIAMONDS ARE EVALUATED NORMALLY.  With an acyclic prerequisite graph, every nested call the walk
+makes — on whichever of several paths, at whatever depth, with whatever chain — returns exactly what
+the same flag returns standing alone (empty chain) from the same entry state: the same detail, the
+same `ok`, the same events, lookups, log lines, queries and status. -/
+theorem acyclic_call_standalone {env : Env} {top : Flag} (hac : PrereqAcyclicFrom env.store top)
+    {c : Call} (hwalk : ReflTransGen (Calls (segFuel env.store) env) (rootCall env top) c) :
+    c.run (segFuel env.store) env = evalFlag (segFuel env.store) c.fuel env c.flag [] c.st :=
+  evalFlag_acyclic_standalone _ env hac _ _ (walk_invariant hwalk).2.1
+
+/-- DEPTH INDEPENDENCE ("beyond 20 levels").  Nothing in the model counts levels or holds the path in
+a bounded buffer; the content of that remark is this theorem: prefixing the chain by ANY list `c` of
+keys — of any length — that are not keys of flags below `f` changes nothing at all in the
+evaluation of `f`.  So what a flag evaluates to at depth `|c|` is what the recursion gives at depth
+0. -/
+theorem depth_independent (env : Env) (n : Nat) (f : Flag) (c path : List String) (st : St)
+    (hc : ∀ h, TransGen (PrereqEdge env.store) f h → h.key ∉ c) :
+    evalFlag (segFuel env.store) n env f (c ++ path) st =
+      evalFlag (segFuel env.store) n env f path st :=
+  evalFlag_chain_irrelevant _ env n f c path st hc
+
+/-- The shape of the walk at any depth: the flag is reachable from the evaluated flag, the chain is
+a path of the graph leading to it (`OnPath`), no key occurs twice on `chain ++ [own key]`, and the
+depth `|chain|` is exactly the fuel used — there is no other bound on it (in particular not 20).
+The chain of a nested call is its parent's chain plus the parent's own key, whichever siblings were
+evaluated before (`Calls.chain_eq`). -/
+theorem walk_shape {env : Env} {top : Flag} {c : Call}
+    (hwalk : ReflTransGen (Calls (segFuel env.store) env) (rootCall env top) c) :
+    PrereqReach env.store top c.flag ∧ OnPath env.store top c.chain c.flag ∧
+    (c.chain ++ [c.flag.key]).Nodup ∧ c.fuel + c.chain.length = flagFuel env.store :=
+  walk_invariant hwalk
+
+/-! ### Non-vacuity of the statements above -/
+
+namespace Ex
+
+def rank (k : String) : Nat :=
+  if k = "top" then 3 else if k = "a" then 2 else if k = "b" then 2 else if k = "c" then 1 else 0
+
+theorem find_a : env.store.findFlag "a" = some a := rfl
+theorem find_b : env.store.findFlag "b" = some b := rfl
+theorem find_c : env.store.findFlag "c" = some c := rfl
+
+/-- The prerequisite diamond top → {a, b} → c is acyclic: the hypothesis of
+`acyclic_no_prereq_cycle_report`, `acyclic_never_reenters`, `acyclic_call_standalone` holds for it. -/
+theorem diamond_acyclic : PrereqAcyclicFrom env.store top := by
+  apply prereqAcyclic_of_rank rank
+  intro f g hf ⟨p, hp, hfind⟩
+  have hst : env.store.flags.map (·.2) = [a, b, c] := rfl
+  rw [hst] at hf
+  simp only [List.mem_cons, List.not_mem_nil, or_false] at hf
+  rcases hf with rfl | rfl | rfl | rfl
+  · have : p = ⟨"a", 0⟩ ∨ p = ⟨"b", 0⟩ := by simpa [top, mkFlag] using hp
+    rcases this with rfl | rfl
+    · rw [find_a] at hfind; cases hfind; decide
+    · rw [find_b] at hfind; cases hfind; decide
+  · have : p = ⟨"c", 0⟩ := by simpa [a, mkFlag] using hp
+    subst this
+    rw [find_c] at hfind; cases hfind; decide
+  · have : p = ⟨"c", 0⟩ := by simpa [b, mkFlag] using hp
+    subst this
+    rw [find_c] at hfind; cases hfind; decide
+  · simp [c, mkFlag] at hp
+
+/-- The theorem applied to the diamond. -/
+example : ∀ l ∈ (evaluate env top).logs, ∀ k, l.err.core ≠ .circularPrereq k :=
+  acyclic_no_prereq_cycle_report env top diamond_acyclic
+
+/-- `depth_independent` with a chain prefix of 25 keys (deeper than 20): the only flag below `a`
+is `c`, whose key is none of `d00 … d24`. -/
+example (n : Nat) (path : List String) (st : St) :
+    evalFlag (segFuel env.store) n env a (deepKeys ++ path) st =
+      evalFlag (segFuel env.store) n env a path st := by
+  apply depth_independent
+  have hdesc : ∀ h, TransGen (PrereqEdge env.store) a h → h = c := by
+    intro h hh
+    induction hh with
+    | single hb =>
+      obtain ⟨p, hp, hfind⟩ := hb
+      have : p = ⟨"c", 0⟩ := by simpa [a, mkFlag] using hp
+      subst this
+      rw [find_c] at hfind; cases hfind; rfl
+    | tail _ hbc ih =>
+      subst ih
+      obtain ⟨p, hp, _⟩ := hbc
+      simp [c, mkFlag] at hp
+  intro h hh
+  rw [hdesc h hh]
+  decide
+
+/-- The segment diamond s1 → {s2, s3} → s4 is acyclic (hypothesis of
+`acyclic_no_segment_cycle_report`). -/
+def segRank (k : String) : Nat :=
+  if k = "s1" then 3 else if k = "s2" then 2 else if k = "s3" then 2 else if k = "s4" then 1 else 0
+
+theorem find_s2 : diamondSegEnv.store.findSegment "s2" = some (mkSeg "s2" ["s4"]) := rfl
+theorem find_s3 : diamondSegEnv.store.findSegment "s3" = some (mkSeg "s3" ["s4"]) := rfl
+theorem find_s4 : diamondSegEnv.store.findSegment "s4" = some (mkSeg "s4" []) := rfl
+
+theorem segment_diamond_acyclic : SegAcyclicFrom diamondSegEnv.store segFlag := by
+  apply segAcyclic_of_rank segRank
+  intro sa sb ha ⟨r, hr, cl, hcl, _, k, hk, hfind⟩
+  have hst : diamondSegEnv.store.segments.map (·.2) =
+      [mkSeg "s1" ["s2", "s3"], mkSeg "s2" ["s4"], mkSeg "s3" ["s4"], mkSeg "s4" []] := rfl
+  rw [hst] at ha
+  simp only [List.mem_cons, List.not_mem_nil, or_false] at ha
+  rcases ha with rfl | rfl | rfl | rfl
+  · have hr' : r = { clauses := [segClause ["s2", "s3"]] } := by simpa [mkSeg] using hr
+    subst hr'
+    have hcl' : cl = segClause ["s2", "s3"] := by simpa using hcl
+    subst hcl'
+    have : k = "s2" ∨ k = "s3" := by simpa [segClause] using hk
+    rcases this with rfl | rfl
+    · rw [find_s2] at hfind; cases hfind; decide
+    · rw [find_s3] at hfind; cases hfind; decide
+  · have hr' : r = { clauses := [segClause ["s4"]] } := by simpa [mkSeg] using hr
+    subst hr'
+    have hcl' : cl = segClause ["s4"] := by simpa using hcl
+    subst hcl'
+    have : k = "s4" := by simpa [segClause] using hk
+    subst this
+    rw [find_s4] at hfind; cases hfind; decide
+  · have hr' : r = { clauses := [segClause ["s4"]] } := by simpa [mkSeg] using hr
+    subst hr'
+    have hcl' : cl = segClause ["s4"] := by simpa using hcl
+    subst hcl'
+    have : k = "s4" := by simpa [segClause] using hk
+    subst this
+    rw [find_s4] at hfind; cases hfind; decide
+  · simp [mkSeg] at hr
+
+/-- The hypothesis of `cycle_report_implies_malformed` holds for the segment cycle and for the
+prerequisite cycle behind a healthy sibling. -/
+example : ∃ l ∈ (evaluate cycleSegEnv segFlag).logs, ∃ k,
+    l.err.core = .circularPrereq k ∨ l.err.core = .circularSegment k :=
+  ⟨⟨"sf", .malformedSegment "s1" (.malformedSegment "s2" (.circularSegment "s1"))⟩,
+    by rw [segment_cycle_is_malformed.2.2.2]; exact List.mem_singleton.mpr rfl, "s1", .inr rfl⟩
+
+example : ∃ l ∈ (evaluate cycEnv mixed).logs, ∃ k,
+    l.err.core = .circularPrereq k ∨ l.err.core = .circularSegment k :=
+  ⟨⟨"y", .circularPrereq "x"⟩, by decide, "x", .inl rfl⟩
+
+/-! The walk of `evaluate cycEnv mixed`: mixed evaluates its healthy first prerequisite `c`, then
+calls x, x calls y, and y re-enters x. -/
+
+theorem cyc_fuel : flagFuel cycEnv.store = 7 := by decide
+
+/-- The state after `mixed`'s first prerequisite `c` has been evaluated and found met. -/
+def stC : St :=
+  (prereqLoop (evalFlag (segFuel cycEnv.store) 6 cycEnv) cycEnv mixed ["mixed"] [⟨"c", 0⟩] {}).2
+
+theorem stC_ok : prereqLoop (evalFlag (segFuel cycEnv.store) 6 cycEnv) cycEnv mixed ["mixed"]
+    [⟨"c", 0⟩] {} = (.ok, stC) := Prod.ext (by decide) rfl
+
+def callX : Call := ⟨6, x, ["mixed"], lookedUp stC "x"⟩
+def callY : Call := ⟨5, y, ["mixed", "x"], lookedUp (lookedUp stC "x") "y"⟩
+
+theorem step1 : Calls (segFuel cycEnv.store) cycEnv ⟨7, mixed, [], {}⟩ callX :=
+  Calls.mk (n := 6) (f := mixed) (chain := []) (st := {}) (pre := [⟨"c", 0⟩]) (p := ⟨"x", 0⟩)
+    (post := [⟨"a", 0⟩]) (pf := x) (st1 := stC) rfl rfl stC_ok rfl (by decide)
+
+theorem step2 : Calls (segFuel cycEnv.store) cycEnv callX callY :=
+  Calls.mk (n := 5) (f := x) (chain := ["mixed"]) (st := lookedUp stC "x") (pre := [])
+    (p := ⟨"y", 0⟩) (post := []) (pf := y) (st1 := lookedUp stC "x") rfl rfl rfl rfl (by decide)
+
+/-- Hypotheses of `reentry_reported` / `reentry_is_cycle`, at depth 2 behind a completed sibling. -/
+theorem mixed_walk :
+    ReflTransGen (Calls (segFuel cycEnv.store) cycEnv) (rootCall cycEnv mixed) callY := by
+  have : rootCall cycEnv mixed = ⟨7, mixed, [], {}⟩ := by unfold rootCall; rw [cyc_fuel]
+  rw [this]
+  exact (ReflTransGen.single step1).tail step2
+
+theorem mixed_reenters : Reenters (segFuel cycEnv.store) cycEnv callY ⟨"x", 0⟩ x callY.st :=
+  Reenters.mk (n := 4) (f := y) (chain := ["mixed", "x"]) (st := callY.st) (pre := [])
+    (p := ⟨"x", 0⟩) (post := []) (pf := x) (st1 := callY.st) rfl rfl rfl rfl (by decide)
+
+example : (evaluate cycEnv mixed).flagLookups = callY.st.flagLookups ++ ["x"] ∧
+    (evaluate cycEnv mixed).events = callY.st.events :=
+  let h := reentry_reported (by show Ctx.single _ ≠ .invalid; intro h; cases h) mixed_walk mixed_reenters
+  ⟨h.2.1, h.2.2.1⟩
+
+/-! A cycle entered 25 levels down (beyond 20): top → d00 → … → d24 → d10. -/
+def deepCycFlags : List Flag :=
+  List.zipWith (fun k nxt => mkFlag k [⟨nxt, 0⟩]) deepKeys (deepKeys.drop 1) ++
+    [mkFlag "d24" [⟨"d10", 0⟩]]
+def deepCycEnv : Env :=
+  { opts := { logger := true }, store := Store.ofLists deepCycFlags [], bs := none, ctx := ctx,
+    rx := fun _ _ => none }
+
+theorem deep_cycle_is_malformed :
+    (evaluate deepCycEnv (mkFlag "top" [⟨"d00", 0⟩])).outcome = .done ∧
+    (evaluate deepCycEnv (mkFlag "top" [⟨"d00", 0⟩])).result.detail.reason.errorKind =
+      some .malformedFlag ∧
+    (evaluate deepCycEnv (mkFlag "top" [⟨"d00", 0⟩])).events.length = 0 ∧
+    (evaluate deepCycEnv (mkFlag "top" [⟨"d00", 0⟩])).flagLookups.length = 26 ∧
+    (evaluate deepCycEnv (mkFlag "top" [⟨"d00", 0⟩])).logs = [⟨"d24", .circularPrereq "d10"⟩] := by
+  decide
+
+/-! A family of ARBITRARY depth (no `decide`): the linear chain over any duplicate-free key list. -/
+
+/-- The flag with key `k` of a linear chain: its only prerequisite is the next key (if any). -/
+def linFlag (k : String) (ks : List String) : Flag :=
+  mkFlag k (match ks with | [] => [] | k' :: _ => [⟨k', 0⟩])
+
+/-- The flags of the linear chain `k₀ → k₁ → … → kₙ`. -/
+def linFlags : List String → List Flag
+  | [] => []
+  | k :: ks => linFlag k ks :: linFlags ks
+
+def linEnv (ks : List String) : Env :=
+  { opts := {}, store := Store.ofLists (linFlags ks) [], bs := none, ctx := ctx,
+    rx := fun _ _ => none }
+
+def okDetail : Detail := { value := .bool true, index := some 0, reason := .fallthrough }
+
+theorem linFlag_body {rec : FlagRec} {sf : Nat} {env : Env} {k : String} {ks chain : List String}
+    {st st1 : St} (h : checkPrereqs rec env (linFlag k ks) chain st = (.ok, st1)) :
+    evalBody rec (segContains sf env) env (linFlag k ks) chain st = (.done okDetail true, st1) := by
+  unfold evalBody
+  rw [h]
+  simp [linFlag, mkFlag, anyTargetMatch, rulesLoop, getValueForVR, variationOrRollout,
+    getVariation, okDetail, Reason.fallthrough]
+
+theorem lin_evalFlag (sf : Nat) (env : Env) :
+    ∀ (ks : List String) (k : String) (n : Nat) (chain : List String) (st : St),
+      (k :: ks).Nodup → (∀ x ∈ k :: ks, x ∉ chain) → ks.length < n →
+      (∀ k1 suf, (k1 :: suf) <:+ ks → env.store.findFlag k1 = some (linFlag k1 suf)) →
+      ∃ st', evalFlag sf n env (linFlag k ks) chain st = (.done okDetail true, st') ∧
+        st'.flagLookups = st.flagLookups ++ ks ∧ st'.logs = st.logs := by
+  intro ks
+  induction ks with
+  | nil =>
+    intro k n chain st _ _ hn _
+    obtain ⟨m, rfl⟩ : ∃ m, n = m + 1 := ⟨n - 1, by simp at hn; omega⟩
+    refine ⟨st, ?_, by simp, rfl⟩
+    show evalBody _ _ env (linFlag k []) chain st = _
+    apply linFlag_body
+    simp [checkPrereqs, linFlag, mkFlag]
+  | cons k' ks ih =>
+    intro k n chain st hnd hch hn hfind
+    obtain ⟨m, rfl⟩ : ∃ m, n = m + 1 := ⟨n - 1, by simp at hn; omega⟩
+    have hnd' : (k' :: ks).Nodup := (List.nodup_cons.mp hnd).2
+    have hkne : ∀ x ∈ k' :: ks, x ≠ k := by
+      intro x hx hxk; subst hxk; exact (List.nodup_cons.mp hnd).1 hx
+    have hch' : ∀ x ∈ k' :: ks, x ∉ chain ++ [k] := by
+      intro x hx hm
+      rcases List.mem_append.mp hm with hm | hm
+      · exact hch x (List.mem_cons_of_mem _ hx) hm
+      · exact hkne x hx (List.mem_singleton.mp hm)
+    obtain ⟨st2, hrun, hfl, hlg⟩ := ih k' m (chain ++ [k]) (lookedUp st k') hnd' hch'
+      (by simp at hn; omega)
+      (fun k1 suf hs => hfind k1 suf (hs.trans (List.suffix_cons _ _)))
+    have hf : env.store.findFlag k' = some (linFlag k' ks) := hfind k' ks (List.suffix_refl _)
+    have hc : (chain ++ [(linFlag k (k' :: ks)).key]).contains (linFlag k' ks).key = false := by
+      have := hch' k' List.mem_cons_self
+      simpa [linFlag, mkFlag] using this
+    have hloop : checkPrereqs (evalFlag sf m env) env (linFlag k (k' :: ks)) chain st =
+        (.ok, afterPrereq env (linFlag k (k' :: ks)) (linFlag k' ks) st.status okDetail st2) := by
+      have hp : (linFlag k (k' :: ks)).prerequisites = [⟨k', 0⟩] := rfl
+      rw [checkPrereqs, hp]
+      simp only [List.isEmpty_cons, Bool.false_eq_true, if_false]
+      rw [prereqLoop_done (p := ⟨k', 0⟩) hf hc hrun]
+      simp [prereqMet, linFlag, mkFlag, okDetail, prereqLoop]
+    refine ⟨_, linFlag_body hloop, ?_, ?_⟩
+    · rw [afterPrereq_flagLookups, hfl]; simp [lookedUp]
+    · have : (afterPrereq env (linFlag k (k' :: ks)) (linFlag k' ks) st.status okDetail st2).logs =
+          st2.logs := by unfold afterPrereq; split <;> rfl
+      rw [this, hlg]; rfl
+
+theorem lin_findFlag : ∀ (l : List String), l.Nodup → ∀ k1 suf, (k1 :: suf) <:+ l →
+    (Store.ofLists (linFlags l) []).findFlag k1 = some (linFlag k1 suf) := by
+  intro l
+  induction l with
+  | nil => intro _ k1 suf h; simp at h
+  | cons x xs ih =>
+    intro hnd k1 suf hs
+    rcases List.suffix_cons_iff.mp hs with h | h
+    · cases h
+      simp [Store.findFlag, Store.ofLists, linFlags, linFlag, mkFlag]
+    · have hne : x ≠ k1 := by
+        intro e; subst e
+        exact (List.nodup_cons.mp hnd).1 (h.subset List.mem_cons_self)
+      have := ih (List.nodup_cons.mp hnd).2 k1 suf h
+      simp only [Store.findFlag, Store.ofLists, linFlags, List.map_cons] at this ⊢
+      rw [List.find?_cons_of_neg (by simpa [linFlag, mkFlag] using hne)]
+      exact this
+
+theorem lin_keys : ∀ l : List String,
+    (Store.ofLists (linFlags l) []).flags.map (·.2.key) = l := by
+  intro l
+  induction l with
+  | nil => rfl
+  | cons x xs ih =>
+    simp only [Store.ofLists, linFlags, List.map_cons, List.map_map] at ih ⊢
+    rw [ih]; rfl
+
+/-- DEPTH-GENERIC INSTANCE: for EVERY duplicate-free list of keys `k :: ks` — of any length, in
+particular longer than 20 — the linear prerequisite chain `k → ks₀ → ks₁ → …` evaluates normally:
+fallthrough, variation 0, every link looked up exactly once and in order, nothing logged. -/
+theorem linear_chain_any_depth (k : String) (ks : List String) (hnd : (k :: ks).Nodup) :
+    (evaluate (linEnv (k :: ks)) (linFlag k ks)).outcome = .done ∧
+    (evaluate (linEnv (k :: ks)) (linFlag k ks)).result.detail.index = some 0 ∧
+    (evaluate (linEnv (k :: ks)) (linFlag k ks)).result.detail.reason.kind = .fallthrough ∧
+    (evaluate (linEnv (k :: ks)) (linFlag k ks)).flagLookups = ks ∧
+    (evaluate (linEnv (k :: ks)) (linFlag k ks)).logs = [] := by
+  have hctx : (linEnv (k :: ks)).ctx ≠ .invalid := by
+    show Ctx.single _ ≠ .invalid; intro h; cases h
+  have hfuel : ks.length < flagFuel (linEnv (k :: ks)).store := by
+    have h1 : (linEnv (k :: ks)).store.flags.map (·.2.key) = k :: ks := lin_keys (k :: ks)
+    have h2 := nodup_length_le (L := ((linEnv (k :: ks)).store.flags.map (·.2.key)).eraseDups) hnd
+      (fun x hx => List.mem_eraseDups.mpr (by rw [h1]; exact hx))
+    unfold flagFuel distinctCount
+    simp only [List.length_cons] at h2
+    omega
+  obtain ⟨st', hrun, hfl, hlg⟩ := lin_evalFlag (segFuel (linEnv (k :: ks)).store) (linEnv (k :: ks))
+    ks k (flagFuel (linEnv (k :: ks)).store) [] {} hnd (by simp) hfuel
+    (fun k1 suf hs => lin_findFlag (k :: ks) hnd k1 suf (hs.trans (List.suffix_cons _ _)))
+  obtain ⟨_, e2, e3, _⟩ := evaluate_channels hctx hrun
+  rcases evaluate_valid _ hctx hrun with ⟨d, ok, hd, ho, hdet⟩ | ⟨h, _⟩
+  · cases hd
+    refine ⟨ho, ?_, ?_, ?_, ?_⟩
+    · rw [hdet]; cases st'.status <;> rfl
+    · rw [hdet, withStatus_kind]; rfl
+    · rw [e3, hfl]; rfl
+    · rw [e2, hlg]
+  · cases h
+
+/-- The hypothesis is satisfiable beyond 20 levels: the 26 keys `top, d00, …, d24`. -/
+example : (evaluate (linEnv ("top" :: deepKeys)) (linFlag "top" deepKeys)).flagLookups = deepKeys :=
+  (linear_chain_any_depth "top" deepKeys (by decide)).2.2.2.1
+
+end Ex
+
 end LD.C10
 
 #print axioms LD.C10.terminates
@@ -501,3 +1073,24 @@ end LD.C10
 #print axioms LD.C10.Ex.deep_diamond_ok
 #print axioms LD.C10.Ex.cycle_behind_sibling
 #print axioms LD.C10.Ex.segment_cycle_is_malformed
+#print axioms LD.C10.evaluate_logs_ok
+#print axioms LD.C10.circular_prereq_report_sound
+#print axioms LD.C10.circular_prereq_report_cycle
+#print axioms LD.C10.acyclic_no_prereq_cycle_report
+#print axioms LD.C10.acyclic_keygraph_no_prereq_cycle_report
+#print axioms LD.C10.acyclic_keygraphAll_no_prereq_cycle_report
+#print axioms LD.C10.circular_segment_report_sound
+#print axioms LD.C10.acyclic_no_segment_cycle_report
+#print axioms LD.C10.cycle_report_implies_malformed
+#print axioms LD.C10.reentry_reported
+#print axioms LD.C10.reentry_is_cycle
+#print axioms LD.C10.acyclic_never_reenters
+#print axioms LD.C10.acyclic_call_standalone
+#print axioms LD.C10.depth_independent
+#print axioms LD.C10.walk_shape
+#print axioms LD.C10.Ex.diamond_acyclic
+#print axioms LD.C10.Ex.segment_diamond_acyclic
+#print axioms LD.C10.Ex.mixed_walk
+#print axioms LD.C10.Ex.mixed_reenters
+#print axioms LD.C10.Ex.deep_cycle_is_malformed
+#print axioms LD.C10.Ex.linear_chain_any_depth
